@@ -47,8 +47,8 @@ class Lexer:
         while self.pos < self.length:
             ch = self._current()
 
-            # Whitespace
-            if ch in " \t\r\n":
+            # Whitespace (including vertical tab and form feed)
+            if ch in " \t\r\n\x0b\x0c":
                 self._advance()
                 continue
 
